@@ -219,8 +219,9 @@ example : ∃ chain o s, (∀ x ∈ chain, x ∈ W.sites) ∧ reach W cfgA chain
       · rw [(site_some hs).2]; decide
       · rw [hcls]; decide
 
-/-- the path table is not empty talk: 11 paths, 109 steps -/
-example : paths.length = 11 ∧ (paths.map (·.2.length)).sum = 109 := by decide
+/-- the path table names the creation paths of the property -/
+example : paths.map (·.1) = ["load", "create", "insertGlyph", "dictAppend", "factory", "penDraw", "reverse",
+    "pointInsertion", "decompose", "reload", "deserialize"] := by decide
 
 /-! ## The certificate discriminates: wirings with a seeded fault are rejected, with a witness -/
 
